@@ -11,6 +11,7 @@
   verdict is the correspondence (`run/props.py: run_c17`, token- and character-level mutations); its ties to
   the current sources that can be regenerated are in `Properties/SyntaxTie.lean` (re-exported below).
 -/
+import GruleModel.Proofs.LexDoc
 import GruleModel.Syntax.Build
 import GruleModel.Properties.C16
 import GruleModel.Properties.SyntaxTie
@@ -200,6 +201,23 @@ theorem C17_parseDoc_real (ot : BinOp → List Char) (dT : String → Token) (ru
     parseDoc realDec (ParseDoc.fDoc RealLiterals.canonTok ot dT rules) = (rules, none) :=
   RealLiterals.real_parseDoc ot dT rules hw
 
+/-- **From characters to rules** (`Proofs/LexRender`, `LexFixed`, `LexTokens`, `LexDoc`). For every sequence of well-formed
+    rules — any size and nesting — whose names are identifiers spelling no keyword, whose strings and descriptions
+    `strconv.Quote` can write and whose integers fit int64: the lexer model reads the canonical text (every token in its
+    canonical spelling followed by one space) without error into the document's tokens — maximal munch decided rule by rule:
+    `=` before a space is not `==`, `rule` is the keyword and `rules` a name, `e12` is a name and not an exponent, `0` is
+    decimal and opens no hex/octal literal, a quoted string ends at its first unescaped quote — and the parser with the real
+    literal decoder reads those tokens back as exactly these rules. Non-vacuity: `LexDoc.sample_ok`, `sample_text`,
+    `sample_roundtrip`; the real engine builds the same text into the same snapshot. -/
+theorem C17_text_to_rules (rules : List Rule) (h : ∀ r ∈ rules, ParseDoc.WFRule RealLiterals.Covered r ∧ LexDoc.LRule r) :
+    lex (LexDoc.docText rules) = { toks := ParseDoc.fDoc RealLiterals.canonTok LexDoc.canonOt LexDoc.canonDT rules, errs := 0 } ∧
+    parseDoc realDec (lex (LexDoc.docText rules)).toks = (rules, none) :=
+  LexDoc.lex_parse_doc rules h
+
+/-- the lexer on any space-separated rendering of tokens that lex -/
+theorem C17_lex_render (ts : List Token) (h : ∀ t ∈ ts, LexRender.Lexes t) : lex (LexRender.render ts) = { toks := ts, errs := 0 } :=
+  LexRender.lex_render ts h
+
 /-- **the converse: what is accepted is well formed.** Every rule of an accepted text has a condition and at least one
     action, its operators are grouped by `prec` and to the left, negations are outermost — in particular a text with an
     empty condition or an empty action list is never accepted (`Proofs/ParseRange`, `ParseRangeDoc`). With
@@ -239,6 +257,10 @@ theorem C17_leading_whitespace (ws cs : List Char) (h : ∀ c ∈ ws, isWs c = t
 #print axioms C17_valid_documents_parse
 #print axioms C17_parseDoc_roundtrip
 #print axioms C17_parseDoc_real
+#print axioms C17_text_to_rules
+#print axioms C17_lex_render
+#print axioms Grule.LexDoc.sample_roundtrip
+#print axioms Grule.LexFixed.lexes_tk
 #print axioms C17_accepted_rules_wellformed
 #print axioms C17_parser_range
 #print axioms C17_illegal_start_rejected
